@@ -1197,6 +1197,19 @@ theorem step_astep {w w' : World} {op : WOp} (h : w.step op = some w') : AStep w
         | error k =>
           simp at h; subst h
           exact Or.inl (hasSlice_of_same (fun _ => rfl) (fun _ => rfl) hs)
+  | lend bs =>
+    simp [World.step, World.addExt] at h; subst h
+    exact (quiet_with_exts w _).astep
+  | pushAt i b off len =>
+    simp only [World.step] at h
+    split at h
+    · exact push_astep h (Or.inl ⟨_, rfl⟩)
+    · simp at h
+  | pushBorrowedAt i b off len =>
+    simp only [World.step] at h
+    split at h
+    · exact (pushBorrowed_quiet h (Or.inl ⟨_, rfl⟩)).astep
+    · simp at h
 
 
 /-! ### Histories with the capacity ghost -/
